@@ -75,3 +75,7 @@ prop("C14", [H("H14_search", common=dict(VEC), quick={"wall": "140s", "shards": 
 prop("C15", [H("H15_vecmerge", common=dict(VEC), quick={"wall": "140s", "shards": 16, "param": "nCat=2,reopen=0,maxDocs=1,secondField=1"}, thorough={"wall": "1500s", "shards": 16})])
 prop("C16", [H("H16_recheck", common=dict(VEC)), H("H16_history", common=dict(VEC), quick={"wall": "140s", "shards": 16, "param": "maxEvents=4"}, thorough={"wall": "1500s", "shards": 16, "param": "maxEvents=6"})])
 prop("C19", [H("H19_faults", common=dict(VEC, param="large=1"), quick={"wall": "140s", "shards": 8})])
+
+# thorough only: the section / id tables are Go maps; the same runs with maps iterated in reverse insertion order
+for _pid, _name, _param in (("C04", "H04_persist", "lite=1,maxDocs=1"), ("C09", "H09_layout", "maxDocs=1,lite=1"), ("C13", "H13_synmerge", "maxSyn=1,emptyTerm=1,drop1=0,reopen=0"), ("C12", "H12_syn", "maxSyn=2")):
+    PLAN[_pid]["harnesses"].append(H(_name, common={"reverse-maps": True}, quick={"skip": True}, thorough={"wall": "1500s", "shards": 16, "param": _param}))
